@@ -9,6 +9,7 @@ import (
 	"sync"
 
 	"verif/harness/drivers/c01"
+	"verif/harness/drivers/c12"
 	"verif/harness/trace"
 )
 
@@ -43,6 +44,20 @@ func runC01(o opts) error {
 		}
 		scns = append(scns, c01.GenChains(rng, o.tier == "thorough", nchain)...)
 		scns = append(scns, c01.Fixed()...)
+		// neighbouring cells whose texts would form one grapheme cluster (regional indicators, Hangul
+		// jamo, Prepend + letter, letter + spacing mark or emoji modifier): a terminal that segments
+		// clusters itself - the reference terminal does, for the capability sets that say so - must
+		// still show them as the two cells the application set. The histories are C12's family, run
+		// here against the reference terminal and under other capability sets as well
+		nnb := 30
+		if o.tier == "thorough" {
+			nnb = 1500
+		}
+		for i, s := range c12.GenNeighbours(rng, nnb) {
+			sc := s.Scn
+			sc.Mask = []int{1 << 1, 1<<1 | 1<<6, 1<<1 | 1<<0 | 1<<8, 1<<1 | 1<<14, 1<<15 - 1}[i%5]
+			scns = append(scns, &sc)
+		}
 	}
 	sink, err := trace.NewSink(o.out, o.shards)
 	if err != nil {
